@@ -17,6 +17,8 @@ import HawkModel.Drv.Crash
 import HawkModel.Drv.Deparse
 import HawkModel.Drv.Fmt
 import HawkModel.Drv.Expr
+import HawkModel.Drv.Awk
+import HawkModel.Drv.Rex
 
 def main (args : List String) : IO UInt32 := do
   match args with
@@ -39,4 +41,6 @@ def main (args : List String) : IO UInt32 := do
   | "deparse" :: _ => Hawk.Drv.Deparse.main; return 0
   | "fmt" :: _ => Hawk.Drv.Fmt.main; return 0
   | "expr" :: _ => Hawk.Drv.Expr.main; return 0
+  | "awk" :: _ => Hawk.Drv.Awk.main; return 0
+  | "rex" :: _ => Hawk.Drv.Rex.main; return 0
   | _ => IO.eprintln "usage: hawkdrv <area>"; return 2
